@@ -7,7 +7,7 @@ Protocol (C13):   <op> <OBJ> <PRM>      op ∈ bc_obj | bc_prm | bc_names
   level names: any token; `?o<i>` / `?p<i>` is the unnamed level at position i of the object / parameter.
 Answers: bc_obj / bc_prm  → the returned object / parameter as the sorted list of  lvl=code,…>cell,…  items
          (levels sorted by name, `nan` for an absent payload);  bc_names → result level order (`-` = unnamed);
-         `error IndexError` / `error ValueError` when the real code raises.
+         `error ValueError` when the real code raises (array of a wrong length); a key level a row does not have is `nan`.
 -/
 namespace PylifeVerif.Driver
 open PylifeVerif.Broadcast
@@ -79,7 +79,6 @@ def showRTbl (t : RTbl (List Int)) : String :=
   " ".intercalate (items.toArray.qsort (· < ·)).toList
 
 def showErr : Err → String
-  | .indexError => "error IndexError"
   | .valueError => "error ValueError"
 
 end Bc
